@@ -9,8 +9,13 @@ import (
 // C07-S: one step from an arbitrary valid state never faults and makes progress.
 func VH_C07_Step() {
 	vunwindCut(vparam("U", 8))
+	if c := vparam("CAP", 0); c > 0 {
+		// memory: no single allocation of the step may exceed CAP bytes whatever the operands say
+		// (only used for opcodes whose legitimate allocations are bounded by the stack contents)
+		vcap(c, c)
+	}
 	th, _, ok := vstepThread(vStepOpts{depth: vparam("D", 3), k: vparam("K", 2), adepth: vparam("A", 1), cdepth: vparam("C", 0), withTx: vparam("TX", 0) == 1,
-		bigTop: vparam("BIGTOP", 0), inUnlock: vparam("UNLOCK", 0) == 1})
+		bigTop: vparam("BIGTOP", 0), inUnlock: vparam("UNLOCK", 0) == 1, sigOps: vparam("SIGOPS", 0) == 1, extra: vparam("X", 0)})
 	if !ok {
 		return
 	}
